@@ -824,6 +824,51 @@ def m_base_named(g, rng):
         g["comment"] = None
 
 
+def m_comment_alias(g, rng):
+    """the comments model: a `Comment` rule that is one rule reference (since fix f957bf6 the second pass reads
+    `metamodel["Comment"]._tx_peg_rule` again after the references are resolved) — to a new match rule, through a chain of
+    aliases, to an existing rule, to a base type, to nothing, to itself, into a cycle, or written with a qualified name"""
+    g["rules"] = [r for r in g["rules"] if r["name"] != "Comment"]
+    g["comment"] = None
+    kind = rng.choice(["line", "line", "chain", "existing", "base", "undef", "self", "cycle", "qualified", "sup", "params"])
+    line = {"name": "LineC", "params": {}, "body": {"k": "re", "v": r"\/\/.*$"}}
+    new = []
+    if kind == "line":
+        new = [{"name": "Comment", "params": {}, "body": {"k": "ref", "name": "LineC"}}, line]
+    elif kind == "chain":
+        k = rng.randint(1, 3)
+        names = ["Comment"] + [f"C{i}" for i in range(k)] + ["LineC"]
+        new = [{"name": a, "params": {}, "body": {"k": "ref", "name": b}} for a, b in zip(names, names[1:])] + [line]
+    elif kind == "existing":
+        new = [{"name": "Comment", "params": {}, "body": {"k": "ref", "name": rng.choice(g["rules"])["name"]}}]
+    elif kind == "base":
+        new = [{"name": "Comment", "params": {}, "body": {"k": "ref", "name": rng.choice(G.BASE + ["OBJECT"])}}]
+    elif kind == "undef":
+        new = [{"name": "Comment", "params": {}, "body": {"k": "ref", "name": "Undef"}}]
+    elif kind == "self":
+        new = [{"name": "Comment", "params": {}, "body": {"k": "ref", "name": "Comment"}}]
+    elif kind == "cycle":
+        new = [{"name": "Comment", "params": {}, "body": {"k": "ref", "name": "C0"}},
+               {"name": "C0", "params": {}, "body": {"k": "ref", "name": rng.choice(["Comment", "C0"])}}]
+    elif kind == "qualified":
+        new = [{"name": "Comment", "params": {}, "body": {"k": "ref", "name": rng.choice(["__base__.ID", "x.Y", "t.TextxRule"])}}]
+        if rng.chance(0.5):
+            g.setdefault("stms", []).append(_reference_stm(rng))
+    elif kind == "sup":
+        new = [{"name": "Comment", "params": {}, "body": {"k": "ref", "name": "LineC", "sup": True}}, line]
+    else:
+        new = [{"name": "Comment", "rawparams": [rng.choice(["noskipws", "ws=' '", "ws"])], "body": {"k": "ref", "name": "LineC"}},
+               line]
+    if rng.chance(0.3):
+        rng_first = new + g["rules"][1:]
+        g["rules"] = g["rules"][:1] + rng_first
+    else:
+        g["rules"] = g["rules"] + new
+    if rng.chance(0.3) and kind not in ("undef", "self", "cycle"):
+        # somebody also uses the Comment rule as an ordinary rule
+        g["rules"][0]["body"] = {"k": "seq", "xs": [g["rules"][0]["body"], {"k": "ref", "name": "Comment"}]}
+
+
 def m_nest(g, rng):
     r = rng.choice(g["rules"])
     e = r["body"]
@@ -837,7 +882,7 @@ AST_MUTATIONS = [
     ("alias-graph", m_alias_graph, 7), ("rewire", m_rewire, 3), ("bad-regex", m_bad_regex, 1), ("regex", m_regex, 6), ("bad-escape", m_bad_escape, 3), ("bad-param", m_bad_param, 4), ("bad-mods", m_bad_mods, 3),
     ("bool-asgn", m_bool_asgn, 4), ("parent", m_parent_attr, 1), ("link", m_link, 6), ("reference", m_reference, 3),
     ("reserved", m_reserved_name, 2), ("import", m_import, 1), ("hash", m_hash_single, 2), ("base-named", m_base_named, 2),
-    ("nest", m_nest, 1),
+    ("nest", m_nest, 1), ("comment-alias", m_comment_alias, 3),
 ]
 
 
@@ -1301,6 +1346,7 @@ class Prop(Check):
         "GramLoad.C23_any_order",
         "GramLoad.C23_compile_in_outcomes",
         "GramLoad.C23_alias_fuel",
+        "GramLoad.C23_alias_fuel_irrelevant",
         "GramLoad.C23_parse_failure",
         "GramLoad.C23_unfixed_alias_false",
         "GramLoad.C23_regex_any_exception",
